@@ -200,6 +200,11 @@ theorem Rel.suspend {w a : World} (h : Rel w a) (pc : Pc) : Rel w (a.suspend pc)
 
 theorem Rel.handleDisconnect {w a : World} (h : Rel w a) : Rel w a.handleDisconnect := h.of_eq rfl rfl rfl
 
+theorem Rel.discFail {w a : World} (h : Rel w a) (ctx : StepCtx) : Rel w (a.discFail ctx) := by
+  rcases discFail_cases a ctx with ⟨e, _⟩ | ⟨e, _⟩ <;> rw [e]
+  · exact h
+  · exact h.handleDisconnect
+
 theorem Rel.finishOp {w a : World} (h : Rel w a) (name : String) (op : Op) : Rel w (a.finishOp name op) :=
   Rel.finish (a := { a with handles := a.handles ++ [op] }) (h.of_eq rfl rfl rfl) _
 
